@@ -234,29 +234,25 @@ def sensitive_vars(n, top=True):
     for one of them into the element's evaluation (what a top-down engine does) can change the element's own value"""
     t = n[0]
     if t in ("bgp", "values"): return set()
-    if t == "group":
-        s = set(); after_sub = False; s_after = set()
-        for e in n[1]:
+    if t in ("group", "optional"):
+        # group: FILTERs range over the whole group, so what the group binds itself (anywhere) is not sensitive for them; a BIND or a nested
+        # operand is evaluated against what precedes it, so only variables certainly bound BEFORE it are safe (an OPTIONAL that comes
+        # first in its group is evaluated unconstrained bottom-up, and constrained when bindings are pushed in).
+        # optional: the same for its inner group, except that the inner group's own top-level FILTER is the LeftJoin condition and may look left.
+        inner = n if t == "group" else n[1]
+        s = set(); s_filter = set(); s_after = set(); after_sub = False; bound = set()
+        for e in inner[1]:
             if e[0] in ("bgp", "values"):
                 # behind a sub-select the pushed bindings are gone (its projection dropped them), so even a BGP or VALUES there is evaluated without them
                 if after_sub: s_after |= all_vars(e)
+                bound |= certain(["group", [e]])
                 continue
             if e[0] == "subselect": after_sub = True
-            if e[0] == "filter": s |= expr_vars(e[1])
-            elif e[0] == "bind": s |= expr_vars(e[1]) | {e[2]}
-            elif e[0] in ("optional", "minus", "union", "group", "graph", "subselect"): s |= all_vars(e)
-        return (s - certain(n)) | s_after
-    if t == "optional":
-        # the OPTIONAL's own top-level filter is its LeftJoin condition and may legitimately look left
-        inner = n[1]
-        s = set(); after_sub = False
-        for e in inner[1]:
-            if e[0] in ("bgp", "values", "filter"):
-                if after_sub and e[0] != "filter": s |= all_vars(e)
-                continue
-            if e[0] == "subselect": after_sub = True
-            s |= all_vars(e)
-        return s - (certain(inner) if not after_sub else set())
+            if e[0] == "filter":
+                if t == "group": s_filter |= expr_vars(e[1])
+            elif e[0] == "bind": s |= (expr_vars(e[1]) | {e[2]}) - bound
+            else: s |= all_vars(e) - bound
+        return s | (s_filter - certain(inner)) | s_after
     if t == "minus": return sensitive_vars(n[1])
     if t == "union": return sensitive_vars(n[1]) | sensitive_vars(n[2])
     if t == "graph": return ({n[1][1]} if n[1][0] == "var" else set()) | sensitive_vars(n[2])
